@@ -15,7 +15,7 @@ CONSTANTS
   Fam = {"op", "close", "with", "copy", "peek"}
   OpShapes <- OpsHttpLife
   MaxConn = 3
-  MaxSteps = 7
+  MaxSteps = 8
   GenDepth = 0
   Advs = {0, 2}
   Lens <- LensSmall
